@@ -369,14 +369,13 @@ structure World (σ : Type) where
   rahProfile : Option Vec      -- `fit.rah_incoming_dmg`
   defProfile : Vec             -- `fit.default_incoming_dmg`
   res : Option (List Vec)      -- stored results (`__data` values non-empty)
-  stale : Bool                 -- ghost: an input changed without the stored results being dropped (K2)
 
 inductive Op (σ : Type)
   | readRah                                   -- `rah.attrs[resonance]` of a running hardener
   | readShip (t : Dmg)                        -- `ship.attrs[resonance]`
   | setRahProfile (p : Option Vec)            -- `fit.rah_incoming_dmg = p`
   | setDefProfile (p : Vec)                   -- `fit.default_incoming_dmg = p`
-  | setShip (s : Option σ)                    -- fit.ship assigned
+  | setShip (s : Option σ)                    -- fit.ship assigned (ItemUnloaded / ItemLoaded of a Ship)
   | shipMod (ts : List Dmg) (s : σ)           -- modifiers of the ship resonances `ts` changed
   | setShift (i : Nat) (v : Option Rat)
   | setDur (i : Nat) (v : Option Rat)
@@ -386,7 +385,9 @@ inductive Op (σ : Type)
 
 variable {σ : Type}
 
-def World.init : World σ := ⟨none, [], [], none, ⟨25, 25, 25, 25⟩, none, false⟩
+def allDmg : List Dmg := [.em, .therm, .kin, .expl]
+
+def World.init : World σ := ⟨none, [], [], none, ⟨25, 25, 25, 25⟩, none⟩
 
 /-- The profile `_run_simulation` uses. -/
 def World.profile (w : World σ) : Vec := w.rahProfile.getD w.defProfile
@@ -396,28 +397,27 @@ def World.inputs (w : World σ) : List Rah := w.rahs.map (·.rah)
 
 /-- `__clear_results`: drops results; its notifications make the calculator drop the ship resonances. -/
 def World.clear (w : World σ) : World σ :=
-  if w.rahs.isEmpty then w else { w with res := none, shipC := [], stale := false }
-
-/-- An input changed and nobody told the simulator. -/
-def World.unannounced (w : World σ) : World σ := { w with stale := w.stale || w.res.isSome }
+  if w.rahs.isEmpty then w else { w with res := none, shipC := [] }
 
 /-- A successful run read every hardener's shift amount and cycle time. -/
 def markRead (ok : Bool) (l : List RahW) : List RahW :=
   if ok then l.map fun x => { x with shiftC := true, durC := true } else l
 
 /-- `get_reso` when nothing is stored. A run with a loaded ship reads every hardener's shift amount and
-    cycle time (they are cached afterwards); its closing notifications drop the ship's resonances. -/
+    cycle time (they are cached afterwards); its closing notifications drop the ship's resonances, which
+    `get_reso` then calculates again, so that the calculator will announce their changes. -/
 def World.fill (shipFn : σ → List Vec → Option Vec) (maxT : Nat) (w : World σ) : World σ :=
   if w.res.isSome || w.rahs.isEmpty then w
   else
     let r := getResults (w.ship.map shipFn) w.profile maxT w.inputs
-    { w with res := some r.1, shipC := [], stale := false, rahs := markRead (r.2.1 == .ok) w.rahs }
+    { w with res := some r.1, shipC := if w.ship.isSome then allDmg else [],
+             rahs := markRead (r.2.1 == .ok) w.rahs }
 
 def World.step (shipFn : σ → List Vec → Option Vec) (maxT : Nat) (w : World σ) : Op σ → World σ
   | .readRah => w.fill shipFn maxT
   | .readShip t =>
     if w.ship.isNone || t ∈ w.shipC then w
-    else let w' := w.fill shipFn maxT; { w' with shipC := t :: w'.shipC }
+    else let w' := w.fill shipFn maxT; if t ∈ w'.shipC then w' else { w' with shipC := t :: w'.shipC }
   -- fit.py publishes RahIncomingDmgChanged when `new != old`, `old` being the profile in effect; `None`
   -- differs from every profile
   | .setRahProfile p =>
@@ -426,26 +426,26 @@ def World.step (shipFn : σ → List Vec → Option Vec) (maxT : Nat) (w : World
   | .setDefProfile p =>
     let w' := { w with defProfile := p }
     if p ≠ w.defProfile && w.rahProfile.isNone then w'.clear else w'
-  -- K2: no handler sees the ship change; results stay
-  | .setShip s => { w with ship := s, shipC := [] }.unannounced
+  -- ItemUnloaded of the old ship / ItemLoaded of the new one (nothing is published for an unloadable ship)
+  | .setShip s => if w.ship.isNone && s.isNone then w else { w with ship := s, shipC := [] }.clear
   | .shipMod ts s =>
     if w.ship.isNone then w
     else if ts.any (· ∈ w.shipC) then { w with ship := some s, shipC := w.shipC.filter (· ∉ ts) }.clear
-    -- K2: the calculator announces only changes of cached values
-    else { w with ship := some s }.unannounced
+    -- the calculator announces only changes of cached values
+    else { w with ship := some s }
   | .setShift i v =>
     let cached := (w.rahs[i]?.map (·.shiftC)).getD false
     let w' := { w with rahs := w.rahs.modify i fun x => { x with rah := { x.rah with shift := v }, shiftC := false } }
-    if cached then w'.clear else w'.unannounced
+    if cached then w'.clear else w'
   | .setDur i v =>
     let cached := (w.rahs[i]?.map (·.durC)).getD false
     let w' := { w with rahs := w.rahs.modify i fun x => { x with rah := { x.rah with dur := v }, durC := false } }
     -- "cycle time change invalidates results only when there're more than 1 RAHs"
-    if w.rahs.length ≤ 1 then w' else if cached then w'.clear else w'.unannounced
+    if 1 < w.rahs.length && cached then w'.clear else w'
   | .setBase i v =>
     { w with rahs := w.rahs.modify i fun x => { x with rah := { x.rah with base := v } } }.clear
-  | .start r sc dc => { w with rahs := w.rahs ++ [⟨r, sc, dc⟩], res := none, shipC := [], stale := false }
-  | .stop i => { w with rahs := w.rahs.eraseIdx i, res := none, shipC := [], stale := false }
+  | .start r sc dc => { w with rahs := w.rahs ++ [⟨r, sc, dc⟩], res := none, shipC := [] }
+  | .stop i => { w with rahs := w.rahs.eraseIdx i, res := none, shipC := [] }
 
 def World.run (shipFn : σ → List Vec → Option Vec) (maxT : Nat) (w : World σ) (ops : List (Op σ)) : World σ :=
   ops.foldl (World.step shipFn maxT) w
